@@ -29,7 +29,10 @@ FnP  == FnDecl("p", <<P("x", WInt)>>, WBool, <<LogPlus(200, V("x")), Ret(Bin(">"
 FnP2 == FnDecl("p2", <<P("x", WInt)>>, WBool, <<LogPlus(400, V("x")), Ret(Bin("==", Bin("%", V("x"), I(2)), I(0)))>>)
 FnG  == FnDecl("g", <<P("a", WInt), P("x", WInt)>>, WInt, <<LogPlus(500, V("x")), Ret(Bin("-", Bin("*", V("a"), I(2)), V("x")))>>)
 FnNot == FnDecl("nt", <<P("x", WBool)>>, WBool, <<Mark(100), Ret(NotE(V("x")))>>)
-Prelude == <<FnF, FnP, FnP2, FnG, FnNot>>
+\* a reducer whose accumulator may still be the sentinel initial value (a string): `it $"e" gs'
+FnGS == FnDecl("gs", <<P("a", WMulti(<<WInt, WStr>>)), P("x", WInt)>>, WInt,
+               <<LogPlus(500, V("x")), IfSet("n", WInt, V("a"), Block(<<Ret(Bin("-", Bin("*", V("n"), I(2)), V("x")))>>), NoneV), Ret(V("x"))>>)
+Prelude == <<FnF, FnP, FnP2, FnG, FnGS, FnNot>>
 
 \* list-level meaning of the callbacks
 Ff(x) == 2 * x
@@ -129,6 +132,16 @@ Consume(c, kind, vs, stages) ==
                     ELSE W(i + 1, [acc |-> Gg(st.acc, t.v.v), log |-> t.log \o <<500 + t.v.v>>])
              w == W(1, [acc |-> 10, log |-> <<>>])
          IN [prog |-> <<ReduceE(V("it"), I(10), V("g"))>>, v |-> IntV(w.acc), log |-> w.log]
+    [] c = "reduce-sent" ->
+         \* the initial value is of a type the reducer never returns: with no survivor the result IS the sentinel
+         LET RECURSIVE W(_, _)
+             W(i, st) ==
+               IF i > Len(vs) THEN [st EXCEPT !.log = @ \o PullLog(kind, i)]
+               ELSE LET t == Through(stages, vs[i], st.log \o PullLog(kind, i)) IN
+                    IF ~t.alive THEN W(i + 1, [st EXCEPT !.log = t.log])
+                    ELSE W(i + 1, [fresh |-> FALSE, acc |-> IF st.fresh THEN t.v.v ELSE Gg(st.acc, t.v.v), log |-> t.log \o <<500 + t.v.v>>])
+             w == W(1, [fresh |-> TRUE, acc |-> 0, log |-> <<>>])
+         IN [prog |-> <<ReduceE(V("it"), S(<<101>>), V("gs"))>>, v |-> IF w.fresh THEN StrV(<<101>>) ELSE IntV(w.acc), log |-> w.log]
     [] c = "sum"  -> [prog |-> <<RedE("$+", "int", V("it"))>>, v |-> IntV(FoldL("+", 0, xs)), log |-> a.log]
     [] c = "prod" -> [prog |-> <<RedE("$*", "int", V("it"))>>, v |-> IntV(FoldL("*", 1, xs)), log |-> a.log]
     [] c = "band" -> [prog |-> <<RedE("$&", "int", V("it"))>>,
@@ -164,7 +177,7 @@ IntPipes == {<<>>} \cup {<<s>> : s \in IntStages1} \cup {<<s, t>> : s \in IntSta
 \* `? float' turns the element type into float: only as the last stage, before a type-agnostic consumer
 TF == [k |-> "tfilter", ty |-> WFloat]
 FloatPipes == {<<TF>>} \cup {<<s, TF>> : s \in IntStages1}
-IntCons == {"collect", "part", "reduce", "sum", "prod", "band", "bor", "for", "manual"}
+IntCons == {"collect", "part", "reduce", "reduce-sent", "sum", "prod", "band", "bor", "for", "manual"}
 Kinds == {"arr", "user"}
 
 IntCases == {[kind |-> kd, vs |-> [i \in 1..Len(xs) |-> IntV(xs[i])], ety |-> WInt, stages |-> ps, cons |-> c] :
@@ -181,8 +194,8 @@ MixCases == {[kind |-> kd, vs |-> xs, ety |-> MixTy, stages |-> <<[k |-> "tfilte
 
 \* the same pipeline SITE evaluated twice: a function whose body builds the iterator over a LITERAL array
 \* (foldable) and consumes it, called twice; each call must enumerate the array afresh
-TwiceCons == {"collect", "part", "reduce", "sum", "prod", "band", "bor"}
-ConsTy(c) == CASE c = "collect" -> WArr(WInt) [] c = "part" -> WTup(<<WArr(WInt), WArr(WInt)>>) [] OTHER -> WInt
+TwiceCons == {"collect", "part", "reduce", "reduce-sent", "sum", "prod", "band", "bor"}
+ConsTy(c) == CASE c = "collect" -> WArr(WInt) [] c = "reduce-sent" -> WMulti(<<WInt, WStr>>) [] c = "part" -> WTup(<<WArr(WInt), WArr(WInt)>>) [] OTHER -> WInt
 TwiceCases == {[kind |-> "lit", vs |-> [i \in 1..Len(xs) |-> IntV(xs[i])], ety |-> WInt, stages |-> ps, cons |-> c] :
                  xs \in IntSeqs \ {<<>>}, ps \in {<<>>, <<[k |-> "map"]>>, <<[k |-> "filter"]>>}, c \in TwiceCons}
 Usable(c) == c.kind \in {"arr", "lit"} \/ UserOk(c.vs)
